@@ -27,7 +27,8 @@ func Migrate13_6(f Flow, cfg *Config) (Flow, error) {
 	const maxCategoryName = 36
 
 	truncate := func(s string, max int) string {
-		return strings.TrimSpace(stringsx.Truncate(s, max)) // so we don't leave trailing spaces
+		// trim before as well as after so that leading spaces don't use up the limit and we don't leave trailing spaces
+		return strings.TrimSpace(stringsx.Truncate(strings.TrimSpace(s), max))
 	}
 
 	for _, node := range f.Nodes() {
